@@ -109,5 +109,33 @@ def replay_text(prop, path, judge):
     return 0
 
 
+def replay_by_rerun(prop, path):
+    """replay for checks whose verdict on an input needs the whole search around it (reference oracles, device tables, file
+    trees): the check's own search is run again with the recorded seed and tier, and the recorded input (or the recorded
+    obligation) is looked up among what fails now.  Writes no evidence."""
+    import importlib
+    r = json.load(open(path))
+    mod = importlib.import_module("vlib." + prop.lower())
+    res = C.Result(prop, r.get("tier") or "quick", r.get("seed") or 1)
+    try:
+        mod.run(res)
+    except Exception as e:  # the machinery itself fails: nothing is shown to hold
+        res.oblige("check machinery", False, "%s: %s" % (type(e).__name__, str(e)[:300]))
+    i = r.get("input")
+    if i:
+        if any(f.get("input") == i for f in res.failing):
+            print("VIOLATION property=%s replay=%s" % (prop, path))
+            return 1
+        print("replay: property now holds on this input")
+        return 0
+    name = (r.get("obligation") or "").split(":")[0]
+    still = [b for b in res.broken if name and b.startswith(name)]
+    if still or (not name and res.broken):
+        print("VIOLATION property=%s replay=%s no-failing-input-found" % (prop, path))
+        return 1
+    print("replay: the recorded obligation checks again")
+    return 0
+
+
 def match_known(f, entry):
     return entry.get("class") is not None and f.get("cls") == entry.get("class")
